@@ -370,6 +370,17 @@ func runC01(c *Ctx) {
 				}
 				b, _ := io.ReadAll(obj.Contents)
 				obj.Contents.Close()
+				if caseNo%3 == 1 {
+					// what GetObject handed out is the caller's: later uploads (of other keys) must not
+					// change it under the caller's hands
+					for n := 0; n < 3; n++ {
+						filler := bytes.Repeat([]byte{byte('f' + n)}, 3000+len(body)%5000)
+						if _, perr := s.Backend.PutObject(bucket, fmt.Sprintf("held/filler-%d", n), map[string]string{}, bytes.NewReader(filler), int64(len(filler))); perr != nil {
+							break
+						}
+					}
+					r.Count("objects_held_across_later_uploads", 1)
+				}
 				var mh http.Header
 				if exp.meta != nil {
 					mh = http.Header{}
